@@ -91,6 +91,10 @@ fn families(id: &str, tier: Tier) -> Vec<BFamily<'static>> {
       add("chord layout over {CAPSLOCK,J}", l_chord(), cfg(&[CAPSLOCK, J], l, 1, d, 0, 30));
       add("repeat layout over {B,LEFTCTRL} with time-outs and a tablet event", l_repeat(), cfg(&[B, LEFTCTRL], l, 1, d, 2, 30));
       if !q { add("plain A->B over {A,C}, deviation bound 2", l_plain(), cfg(&[A, C], 3, 1, 2, 0, 30)); }
+      { let mut cl = cfg(&[A, C], if q { 5 } else { 6 }, 2, 0, 0, 30); cl.single_event_wakeups = true;
+        add("no-repeat layout over {A,C}: histories up to 5 (6) events, one per wake-up, up to 2 tablet events", l_norepeat(), cl); }
+      { let mut cl = cfg(&[B, LEFTCTRL], if q { 4 } else { 5 }, 1, 0, 3, 30); cl.single_event_wakeups = true;
+        add("repeat layout over {B,LEFTCTRL}: histories up to 4 (5) events, one per wake-up, up to 3 time-outs", l_repeat(), cl); }
     }
     _ => unreachable!(),
   }
